@@ -447,7 +447,8 @@ def gen_random(rng):
                 incs.append(os.path.relpath(t, rng.choice(ls)) if ls else r)
             elif k == 6:
                 incs.append(rng.choice(["missing.circom", "./missing.circom", "nodir/x.circom", "../missing.circom",
-                                        ".hidden.circom", os.path.basename(rel)]))
+                                        ".hidden.circom", os.path.basename(rel),
+                                        os.path.relpath(rng.choice(dirs), d), os.path.basename(rng.choice(dirs))]))
             elif k == 7:
                 incs.append(spell(rng, t, dirlinks) if False else os.path.relpath(t, d))
             else:
@@ -585,8 +586,10 @@ def evaluate(ctx, projs, base, with_model=True, with_cli=True):
         models = [json.loads(x) for x in mo]
     res = []
     for p, root, im, cl, mo in zip(projs, roots, impl, clis, models):
+        idem = mo.pop("canon_idempotent", None) if isinstance(mo, dict) else None
         res.append({"proj": p, "root": root, "impl": im, "cli": cl, "model": mo,
-                    "norm": normalise(im), "fails": oracle(p, root, im, cl)})
+                    "norm": normalise(im), "fails": oracle(p, root, im, cl),
+                    "canon_idempotent": idem})
     return res
 
 
@@ -606,16 +609,25 @@ def run(ctx, proofs):
         disagreements, failing = [], []
         keys = set()
         shapes_count = {}
+        known_ids = {k["id"]: k for k in ctx.known}
+        KF_DIR = "C19-include-unreadable"
+        suppressed = 0
         for r in res:
             keys.add(nontrivial_key(r["proj"], r["impl"]))
             shapes_count[r["proj"].get("shape")] = shapes_count.get(r["proj"].get("shape"), 0) + 1
             if r["model"] != r["norm"]:
                 disagreements.append(r)
             if r["fails"]:
-                failing.append(r)
+                # a failure is covered by the known finding only if every failed
+                # clause of the project is of the narrow class of that finding
+                if KF_DIR in known_ids and all(f.get("class") == "include-resolves-to-directory" for f in r["fails"]):
+                    suppressed += 1
+                    ctx.known_finding(KF_DIR, known_ids[KF_DIR]["what"])
+                else:
+                    failing.append(r)
         for r in failing[:5]:
             f = r["fails"][0]
-            ctx.violation("include handling violates the property (%s): %s" % (f["clause"], f["detail"][:300].replace(r["root"], "@")),
+            ctx.violation("include handling violates the property (%s): %s" % (f["clause"], f["detail"].replace(r["root"], "@")[:400]),
                           {"input": r["proj"], "impl": strip_root(r["impl"], r["root"]), "spec": strip_root(r["fails"], r["root"]),
                            "cli": strip_root(r["cli"], r["root"])})
         if not failing:
@@ -647,6 +659,11 @@ def run(ctx, proofs):
             "projects_with_symlinks": sum(1 for r in res if r["proj"].get("links")),
             "disagreements_model_vs_impl": len(disagreements),
             "spec_failures": len(failing),
+            "projects_failing_only_in_known_class": suppressed,
+            "tables_with_idempotent_canon": sum(1 for r in res if r["canon_idempotent"]),
+            "open_statements": ["C19_every_include_served_full_statement (false: known finding C19-include-unreadable; "
+                                "proved outside the class as C19_every_include_served_outside_KF, refuted inside it by "
+                                "C19_include_unreadable_refuted)"],
         })
         ctx.assumptions += [
             "the abstract file system of the theorems (canon, is_dir, read_dir, join, parent, file_name) is a Section parameter; "
